@@ -547,13 +547,56 @@ func (e *Engine) registerModels() {
 		return Str{elems: out}
 	}
 	m["strings.ReplaceAll"] = func(in *Interp, fn *ssa.Function, a []Value) Value {
-		s, ok1 := a[0].(Str).concrete()
+		s := a[0].(Str)
 		o, ok2 := a[1].(Str).concrete()
 		n, ok3 := a[2].(Str).concrete()
-		if !(ok1 && ok2 && ok3) {
-			panic(unsupported("strings.ReplaceAll on symbolic strings"))
+		if !(ok2 && ok3) || len(o) == 0 {
+			panic(unsupported("strings.ReplaceAll with symbolic pattern"))
 		}
-		return in.strConst(strings.ReplaceAll(s, o, n))
+		if c, ok := s.concrete(); ok {
+			return in.strConst(strings.ReplaceAll(c, o, n))
+		}
+		repl := in.strConst(n).elems
+		var out []SElem
+		i := 0
+		for i < len(s.elems) {
+			match := i+len(o) <= len(s.elems)
+			for k := 0; match && k < len(o); k++ {
+				e := s.elems[i+k]
+				if e.tok != nil {
+					match = false
+				} else if !in.path.Branch(in.tt.Eq(e.b, in.tt.BV(8, uint64(o[k])))) {
+					match = false
+				}
+			}
+			if match {
+				out = append(out, repl...)
+				i += len(o)
+			} else {
+				out = append(out, s.elems[i])
+				i++
+			}
+		}
+		return Str{elems: out}
+	}
+	m["strings.HasPrefix"] = func(in *Interp, fn *ssa.Function, a []Value) Value {
+		s := a[0].(Str)
+		pre := a[1].(Str)
+		if len(pre.elems) > len(s.elems) {
+			if s.hasTok() {
+				panic(unsupported("HasPrefix on a token"))
+			}
+			return in.tt.F
+		}
+		cs := []*Term{}
+		for i, pe := range pre.elems {
+			e := s.elems[i]
+			if e.tok != nil || pe.tok != nil {
+				panic(unsupported("HasPrefix on a token"))
+			}
+			cs = append(cs, in.tt.Eq(e.b, pe.b))
+		}
+		return in.tt.And(cs...)
 	}
 	m["strings.Fields"] = func(in *Interp, fn *ssa.Function, a []Value) Value {
 		s, ok := a[0].(Str).concrete()
@@ -681,7 +724,9 @@ func (e *Engine) registerIntrinsicsFor(pp string) {
 	m[pp+".vChoice"] = func(in *Interp, fn *ssa.Function, a []Value) Value {
 		n := int(in.concreteInt(a[0], "vChoice"))
 		v := in.path.Choice(n)
-		in.path.inputs = append(in.path.inputs, Input{Kind: "choice", conc: v})
+		if n > 1 {
+			in.path.inputs = append(in.path.inputs, Input{Kind: "choice", conc: v})
+		}
 		return in.tt.BV(64, uint64(v))
 	}
 	m[pp+".vInt"] = func(in *Interp, fn *ssa.Function, a []Value) Value {
